@@ -672,3 +672,23 @@ Theorem C12_source_iirfilter_contiguous_any : forall (A F : Type) (filt : F -> A
   emits_contiguous (run (iirfilter_gen_step filt finit) None (mkstream h s ds)) h s.
 Proof. exact (fun A F => @source_iirfilter_contiguous_any F A). Qed.
 Print Assumptions C12_source_iirfilter_contiguous_any.
+
+(* ==================== TRANSLATOR TIE, third batch (added): auto_th ====================
+   The coroutine spools the baseline before its main loop; the generated step has three phases over the state
+   option (blk A) + T: inl None (nothing received), inl (Some data) (spooling), inr th (threshold fixed) - the model's
+   AthAcc None / AthAcc (Some data) / AthRun th.  Generated step = autoth_step, every state, every chunk. *)
+Theorem C12_source_auto_th_step : forall (A T O : Type) (thr : list A -> T) (ge : T -> A -> O) Bn (s : ath_st A T) (chunk : blk A),
+  auto_th_gen_step thr ge Bn (match s with AthAcc d => inl d | AthRun th => inr th end) chunk
+  = lift (fun s' => match s' with AthAcc d => inl d | AthRun th => inr th end) (autoth_step thr ge Bn s chunk).
+Proof. exact @auto_th_tie. Qed.
+Print Assumptions C12_source_auto_th_step.
+Theorem C12_source_auto_th_values_any : forall (A T O : Type) (thr : list A -> T) (ge : T -> A -> O) Bn h s (ds : list (list A)),
+  0 <= Bn ->
+  emits_values (run (auto_th_gen_step thr ge Bn) (inl None) (mkstream h s ds)) (thresholded thr ge Bn (concat ds)).
+Proof. exact @source_auto_th_values_any. Qed.
+Print Assumptions C12_source_auto_th_values_any.
+Theorem C12_source_auto_th_contiguous_any : forall (A T O : Type) (thr : list A -> T) (ge : T -> A -> O) Bn h s (ds : list (list A)),
+  0 <= Bn ->
+  emits_contiguous (run (auto_th_gen_step thr ge Bn) (inl None) (mkstream h s ds)) h s.
+Proof. exact @source_auto_th_contiguous_any. Qed.
+Print Assumptions C12_source_auto_th_contiguous_any.
